@@ -66,6 +66,61 @@ def _real_cases():
     for cmd in SIG.DATA_COMMANDS:
         for n in D.arities(cmd):
             yield ("real", cmd, n)
+    yield ("real", "PrintVars", 0)
+
+
+def _real_printvars():
+    """cycles made ONLY of PrintVars commands (it accepts any result, another PrintVars' included): self-loop, 2-cycle, 3-ring, each with and
+    without a PrintVars tail and an unrelated acyclic part, all textual orders of <=3 commands"""
+    import contextlib
+    import io
+    import numpy
+    from mpilot.program import Program
+    from mpilot.exceptions import RecursiveModelStructure
+    from ..vlib import const as C
+
+    C.TABLE["nf"] = lambda: numpy.ma.MaskedArray([0.5, 2.0])
+    viols, outcomes = [], {}
+    evals = 0
+    sample = None
+    rings = {1: [("P0", ["P0"])], 2: [("P0", ["P1"]), ("P1", ["P0"])], 3: [("P0", ["P1"]), ("P1", ["P2"]), ("P2", ["P0"])]}
+    old = sys.getrecursionlimit()
+    sys.setrecursionlimit(_limit())
+    try:
+        for k, ring in rings.items():
+            for tail in (False, True):
+                for extra in (False, True):
+                    cmds = [(nm, "PrintVars", {"InFieldNames": refs + (["X"] if extra else [])}) for nm, refs in ring]
+                    if tail:
+                        cmds.append(("T", "PrintVars", {"InFieldNames": ["P0"]}))
+                    if extra:
+                        cmds.append(("X", "ConstNF", {"Key": "nf"}))
+                    for perm in itertools.permutations(range(len(cmds))) if len(cmds) <= 4 else [tuple(range(len(cmds))), tuple(reversed(range(len(cmds))))]:
+                        p = Program(libraries=REAL_LIBS)
+                        for i in perm:
+                            nm, cn, a = cmds[i]
+                            p.add_command(p.command_library[cn], nm, dict(a))
+                        tag = {"cycle": "%d PrintVars" % k, "tail": tail, "with_acyclic_part": extra, "source": p.to_string()}
+                        sample = tag
+                        for attempt in (1, 2):
+                            evals += 1
+                            try:
+                                with contextlib.redirect_stdout(io.StringIO()):
+                                    p.run()
+                                oc = "returned"
+                                viols.append(V("C14:real:run-returned:PrintVars", "run() #%d of a model with a cycle of %d PrintVars commands returned" % (attempt, k), **tag))
+                            except RecursiveModelStructure:
+                                oc = "RMS"
+                            except BaseException as exc:
+                                oc = type(exc).__name__
+                                if _is_recursion(exc):
+                                    viols.append(V("C14:real:stack-overflow:PrintVars", "run() #%d ran out of stack" % attempt, **tag))
+                                else:
+                                    viols.append(V("C14:real:wrong-error:PrintVars:%s" % type(exc).__name__, "run() #%d raised %r instead of RecursiveModelStructure" % (attempt, exc), **tag))
+                            outcomes["real:printvars:" + oc] = outcomes.get("real:printvars:" + oc, 0) + 1
+    finally:
+        sys.setrecursionlimit(old)
+    return {"evals": evals, "nontrivial": evals, "judged": evals, "viols": viols[:20], "outcomes": outcomes, "sample": sample, "extra": {"cyclic_programs": evals // 2}}
 
 
 def _real(case):
@@ -79,6 +134,8 @@ def _real(case):
     from ..vlib import const as C
 
     _, cmd, n = case
+    if cmd == "PrintVars":
+        return _real_printvars()
     C.TABLE["nf"] = lambda: numpy.ma.MaskedArray([0.5, 2.0, -1.0, 0.0], mask=[False, False, False, True])
     C.TABLE["fz"] = lambda: numpy.ma.MaskedArray([0.5, 1.0, -1.0, 0.0], mask=[False, True, False, False])
     fin = SIG.input_fuzz(cmd) == "fz"
@@ -120,6 +177,11 @@ def _real(case):
                         for i in range(n):
                             if i != pos:
                                 cmds.append(("X%d" % i, lib["ConstFZ" if fin else "ConstNF"], {"Key": "fz" if fin else "nf"}))
+                        # a TAIL outside the cycle that consumes the cycle member through a typed input, and one that prints it
+                        if order:
+                            cmds.append(("W", lib["FuzzyNot" if fout else "Sum"], {"InFieldName": "T"} if fout else {"InFieldNames": ["T"]}))
+                        else:
+                            cmds.append(("PV", lib["PrintVars"], {"InFieldNames": ["T"]}))
                         if order:
                             cmds.reverse()
                         for name, cls, a in cmds:
